@@ -52,8 +52,9 @@ class SchedulerError(Exception):
 
 
 class _LT:
-    __slots__ = ('idx', 'name', 'fn', 'go', 'fin', 'ident', 'done', 'pending',
-                 'result', 'armed', 'error', 'aborted')
+    __slots__ = ('idx', 'name', 'fn', 'go', 'fin', 'ident', 'started', 'done',
+                 'pending', 'result', 'armed', 'error', 'aborted', 'inline',
+                 'waiting', 'stuck', 'unwinding')
 
     def __init__(self, idx, name, fn):
         self.idx = idx
@@ -64,20 +65,29 @@ class _LT:
         self.fin = _thread.allocate_lock()   # released as the thread ends
         self.fin.acquire()
         self.ident = None
+        self.started = False
         self.done = False
         self.pending = None     # ('acq', sem, block, timeout) | ('rel', sem)
         self.result = None
         self.armed = False
         self.error = None
         self.aborted = False
+        self.inline = False     # executed by the harness thread itself
+        self.waiting = False
+        self.stuck = False
+        self.unwinding = False
 
 
 class Scheduler:
     """The baton is held by exactly one party at a time: a logical thread or
     the harness.  Whoever holds it when a scheduling decision is due takes
-    the decision itself (``_pick``) and either keeps running (no thread
+    the decision itself (``_next``) and either keeps running (no thread
     switch at all when the same thread continues) or hands the baton directly
-    to the chosen thread.  The harness gets it back at quiescence."""
+    to the chosen thread.  The harness gets it back at quiescence.
+
+    ``spawn`` makes a logical thread backed by a real thread; ``run_inline``
+    lets the harness thread itself act as one more logical thread (same
+    semantics, no thread to create; used for short probe scripts)."""
 
     def __init__(self, max_steps=20000, wait_s=60.0):
         self.threads = []
@@ -95,24 +105,24 @@ class Scheduler:
         self.overrun = False
         self.closed = False
         self.failure = None     # exception inside the scheduling code itself
-        self._spawning = None
+        self.pruned = False
         self._schedule = None
         self._chooser = None
         self._si = 0
         self._record = True
-        self.pruned = False
+        self._inline = None
 
     # -- harness side ------------------------------------------------------
     def spawn(self, fn, name=None):
-        """Create a logical thread and run it up to its first semaphore
-        operation (code before that must not touch shared state)."""
+        """Create a logical thread.  It starts at the next ``run``: all new
+        threads first run up to their first semaphore operation, in creation
+        order, before any transition is chosen (code before the first
+        semaphore operation must not touch shared state)."""
         lt = _LT(len(self.threads), name or 't%d' % len(self.threads), fn)
         self.threads.append(lt)
         # raw threads: threading.Thread.start() costs two more context
         # switches (its started-handshake), which dominates a short case
         lt.ident = _thread.start_new_thread(self._body, (lt,))
-        self._spawning = lt
-        self._handover(lt)
         return lt
 
     def log(self, *event):
@@ -124,7 +134,7 @@ class Scheduler:
         out = []
         for lt in self.threads:
             op = lt.pending
-            if op is None or lt.done:
+            if op is None or lt.done or op[0] == 'start':
                 continue
             if op[0] == 'rel':
                 out.append((lt, 'rel'))
@@ -137,21 +147,64 @@ class Scheduler:
                     out.append((lt, 'timeout'))
         return out
 
-    def run(self, schedule=None, record=True, chooser=None):
+    def run(self, schedule=None, record=True, chooser=None, inline=None,
+            inline_name=None):
         """Fire transitions until none is enabled.  Returns the number of
         schedule entries consumed.  Instead of a schedule a ``chooser(enabled,
         default_index, prev_enabled) -> index | None`` may take every decision
         (None = abandon this run: ``self.pruned``); the offsets it implies are
-        recorded in ``self.choices`` like any other."""
+        recorded in ``self.choices`` like any other.
+
+        ``inline``: a function to run as one more logical thread *on the
+        calling thread* (same semantics, no thread to create).  Only for
+        scripts that never legitimately sleep for ever: if the inline thread
+        can never continue it is unwound (Abort) and stays in ``stuck()``."""
         self._schedule = schedule
         self._chooser = chooser
         self._si = 0
         self._record = record
-        nxt = self._pick()
+        if inline is not None:
+            self._run_inline(inline, inline_name)
+        nxt = self._next()
         if nxt is not None:
             self._handover(nxt)
         self._check()
         return self._si
+
+    def run_inline(self, fn, name=None):
+        return self.run(None, record=False, inline=fn, inline_name=name)
+
+    def _run_inline(self, fn, name):
+        lt = _LT(len(self.threads), name or 't%d' % len(self.threads), fn)
+        lt.inline = lt.started = True
+        lt.ident = _thread.get_ident()
+        lt.fin.release()
+        self.threads.append(lt)
+        # threads spawned earlier start first
+        nxt = self._next_unstarted()
+        self._inline = lt
+        try:
+            if nxt is not None:
+                lt.pending = ('start',)
+                lt.waiting = True
+                self.current = nxt
+                nxt.go.release()
+                self._inline_wait(lt)
+            self.current = lt
+            try:
+                fn()
+                lt.done = True
+            except Abort:
+                pass
+            except BaseException as exc:   # noqa - reported through lt.error
+                lt.error = exc
+                lt.done = True
+        finally:
+            lt.pending = None
+            lt.unwinding = False
+            self._inline = None
+            self.current = None
+        self._check()
 
     def stuck(self):
         return [lt for lt in self.threads if not lt.done]
@@ -162,12 +215,14 @@ class Scheduler:
             return
         self.closed = True
         self.aborting = True
+        # every simulated operation is inert from here on, so the threads may
+        # unwind concurrently
         for lt in self.threads:
-            if not lt.done:
+            if not lt.inline and not lt.done:
                 lt.aborted = True
-                self._handover(lt)
+                lt.go.release()
         for lt in self.threads:
-            if not lt.fin.acquire(True, self.wait_s):
+            if not lt.inline and not lt.fin.acquire(True, self.wait_s):
                 raise SchedulerError('logical thread %s did not end' % lt.name)
         # ``fin`` is released by the last statement of the thread; wait until
         # the interpreter has really disposed of all of them
@@ -202,6 +257,46 @@ class Scheduler:
                                  'given to %s)' % (self.wait_s, lt.name))
         self.current = None
 
+    def _inline_wait(self, lt):
+        if not lt.go.acquire(True, self.wait_s):
+            raise SchedulerError('baton did not come back to the inline '
+                                 'thread within %ss' % self.wait_s)
+        lt.waiting = False
+        if lt.pending == ('start',):
+            lt.pending = None
+
+    def _next_unstarted(self):
+        for lt in self.threads:
+            if not lt.started:
+                lt.started = True
+                return lt
+        return None
+
+    def _next(self):
+        """The next holder of the baton: a thread still to be started, else
+        the thread whose transition was chosen (and applied), else None."""
+        nxt = self._next_unstarted()
+        if nxt is None:
+            inl = self._inline
+            if inl is not None and inl.pending == ('start',):
+                return inl          # everybody started: the inline fn begins
+            nxt = self._pick()
+        return nxt
+
+    def _pass(self, nxt):
+        """give the baton away (called by a logical thread that cannot go on)"""
+        if nxt is None:
+            inl = self._inline
+            if inl is not None and inl.waiting:
+                inl.stuck = True    # quiescent while the inline thread waits
+                self.current = inl
+                inl.go.release()
+            else:
+                self.ctl.release()
+        else:
+            self.current = nxt
+            nxt.go.release()
+
     def _pick(self):
         """Choose and apply the next transition; the thread it belongs to (it
         finds the outcome in ``lt.result``) or None at quiescence."""
@@ -212,6 +307,8 @@ class Scheduler:
             return None
 
     def _pick_inner(self):
+        if self.pruned or self.overrun:
+            return None
         en = self.enabled()
         if not en:
             return None
@@ -239,12 +336,11 @@ class Scheduler:
             if schedule is not None and self._si < len(schedule):
                 x = schedule[self._si] % n
                 self._si += 1
-        if n > 1:
-            if self._record:
-                costs = tuple(
-                    1 if (prev_enabled and en[(d + o) % n][0] is not prev)
-                    else 0 for o in range(n))
-                self.choices.append((n, x, costs))
+        if n > 1 and self._record:
+            costs = tuple(
+                1 if (prev_enabled and en[(d + o) % n][0] is not prev)
+                else 0 for o in range(n))
+            self.choices.append((n, x, costs))
         lt, kind = en[(d + x) % n]
         op = lt.pending
         sem = op[1]
@@ -289,39 +385,43 @@ class Scheduler:
         except BaseException as exc:   # noqa - reported through lt.error
             lt.error = exc
         finally:
-            lt.done = True
-            lt.pending = None
-            nxt = None
-            if not self.aborting and self._spawning is not lt:
-                nxt = self._pick()
-            self._spawning = None
-            if nxt is None:
-                self.ctl.release()
-            else:
-                self.current = nxt
-                nxt.go.release()
+            if not self.aborting:
+                lt.done = True
+                lt.pending = None
+                self._pass(self._next())
 
     # -- called by SimSemLock from the running logical thread ------------------
+    def inert(self):
+        """simulated operations do nothing while a thread is being unwound"""
+        if self.aborting:
+            return True
+        cur = self.current
+        return cur is not None and cur.unwinding
+
     def _yield(self, op, armed=False):
         lt = self.current
         if lt is None or lt.ident != _thread.get_ident():
             raise SchedulerError('semaphore operation outside a logical thread')
         lt.pending = op
         lt.armed = armed
-        if self._spawning is lt:
-            self._spawning = None
-            nxt = None
-        else:
-            nxt = self._pick()
+        nxt = self._next()
         if nxt is not lt:
-            if nxt is None:
-                self.ctl.release()
-            else:
+            if lt.inline:
+                if nxt is None:     # nobody can move and neither can we
+                    lt.unwinding = True
+                    raise Abort()
+                lt.waiting = True
                 self.current = nxt
                 nxt.go.release()
-            lt.go.acquire()
-            if self.aborting:
-                raise Abort()
+                self._inline_wait(lt)
+                if lt.stuck:
+                    lt.unwinding = True
+                    raise Abort()
+            else:
+                self._pass(nxt)
+                lt.go.acquire()
+                if self.aborting:
+                    raise Abort()
         res = lt.result
         lt.result = None
         if isinstance(res, BaseException):
@@ -348,7 +448,7 @@ class SimSemLock:
 
     def acquire(self, block=True, timeout=None):
         s = self.sched
-        if s.aborting:
+        if s.inert():
             return True
         me = s.current
         if self.kind == self.RECURSIVE_MUTEX and self.count > 0 \
@@ -367,7 +467,7 @@ class SimSemLock:
 
     def release(self):
         s = self.sched
-        if s.aborting:
+        if s.inert():
             return
         if self.kind == self.RECURSIVE_MUTEX:
             if not (self.count > 0 and self.owner is s.current):
@@ -453,16 +553,25 @@ class SimCtx:
 # ---------------------------------------------------------------------------
 
 def _key(lt, kind):
-    return (lt.idx, kind, lt.pending[1].name)
+    sem = lt.pending[1]
+    if kind == 'rel' and sem.maxvalue >= _UNBOUNDED:
+        kind = 'relu'           # a post that cannot hit the bound
+    return (lt.idx, kind, sem.name)
+
+
+_UNBOUNDED = 2 ** 30
 
 
 def independent(u, t):
     """Transitions of different threads commute when they touch different
     semaphores; a "timeout fires" transition of an armed thread neither reads
     nor writes the semaphore, so it commutes with everything another thread
-    does."""
-    return u[0] != t[0] and (u[2] != t[2] or u[1] == 'timeout'
-                             or t[1] == 'timeout')
+    does; two posts to the same unbounded semaphore commute."""
+    if u[0] == t[0]:
+        return False
+    if u[2] != t[2] or u[1] == 'timeout' or t[1] == 'timeout':
+        return True
+    return u[1] == 'relu' and t[1] == 'relu'
 
 
 def dfs(run, bound=None, limit=None, por=True):
